@@ -1821,7 +1821,13 @@ func (p *Parser) expect(kind TokenKind) {
 	// Handle >> splitting: when expecting >, accept >> and split it
 	if kind == TokenGreater && p.check(TokenGreaterGreater) {
 		p.splitGreaterGreater()
+		return
 	}
+	// The token is missing: report it (the callers of expect go on parsing).
+	p.errors = append(p.errors, ParseError{
+		Message: fmt.Sprintf("expected %s, got %s", kind, p.peek().Kind),
+		Token:   p.peek(),
+	})
 }
 
 func (p *Parser) expectErr(kind TokenKind) *ParseError {
